@@ -290,3 +290,33 @@ func Show(m map[string]string) string {
 	b.WriteString("}")
 	return b.String()
 }
+
+// Spy is an http.ResponseWriter that records every call it receives.
+type Spy struct {
+	H     http.Header
+	Codes []int    // every WriteHeader call
+	Body  []byte   // all body bytes
+	Log   []string // "WH <code>" / "W <n>" in order
+}
+
+// NewSpy returns an empty spy.
+func NewSpy() *Spy { return &Spy{H: http.Header{}} }
+
+func (s *Spy) Header() http.Header { return s.H }
+func (s *Spy) WriteHeader(code int) {
+	s.Codes = append(s.Codes, code)
+	s.Log = append(s.Log, fmt.Sprintf("WH %d", code))
+}
+func (s *Spy) Write(b []byte) (int, error) {
+	s.Body = append(s.Body, b...)
+	s.Log = append(s.Log, fmt.Sprintf("W %d", len(b)))
+	return len(b), nil
+}
+
+// Status is the first status line the spy received (0 = none).
+func (s *Spy) Status() int {
+	if len(s.Codes) == 0 {
+		return 0
+	}
+	return s.Codes[0]
+}
